@@ -142,13 +142,22 @@ impl Compile {
 
     fn run_on_single_file(&self, source: &PathBuf, destination: &PathBuf) -> Result<()> {
         let grammar = fs::read_to_string(source)?;
-        let source_header = format!("{}\n{}", generate_source_header(&grammar), self.prefix);
+        // The prefix is identified by its checksum in the header, so the up-to-date check does not
+        // depend on what follows the header in the destination (another prefix starting with the
+        // same text, generated code, or a prefix rewritten by rustfmt).
+        let prefix_crc32 =
+            crc::Crc::<u32>::new(&crc::CRC_32_ISO_HDLC).checksum(self.prefix.as_bytes());
+        let up_to_date_header = format!(
+            "{}// CRC-32/ISO-HDLC of the prefix: {prefix_crc32:08x}\n",
+            generate_source_header(&grammar)
+        );
+        let source_header = format!("{}\n{}", up_to_date_header, self.prefix);
         if let Ok(f) = File::open(destination) {
             let mut existing_header = String::new();
-            if f.take(source_header.len() as u64)
+            if f.take(up_to_date_header.len() as u64)
                 .read_to_string(&mut existing_header)
                 .is_ok()
-                && source_header == existing_header
+                && up_to_date_header == existing_header
             {
                 return Ok(());
             }
